@@ -469,8 +469,25 @@ func c02ScriptCase(c *Ctx, i int, r *rand.Rand) {
 				}
 			case op < 8: // remove
 				script = append(script, sfmt("remove(%s)", u.String()))
+				// the effective weights in force before the call: a removal that fails "changes nothing", weights included
+				effBefore := map[string]int{}
+				for _, id := range c02Identities {
+					if w, ok := t.rr.ServerWeight(mustURL(id)); ok {
+						effBefore[id] = w
+					}
+				}
 				err := t.remove(u)
 				_, present := model[k]
+				if !present && err != nil {
+					for _, id := range c02Identities {
+						w, ok := t.rr.ServerWeight(mustURL(id))
+						if wb, okb := effBefore[id]; ok != okb || (ok && w != wb) {
+							fail("remove/unknown-changed-weights", sfmt("RemoveServer of an unknown server failed (%v) but changed the weight in force of %s from %d to %d (present %v -> %v)", err, id, wb, w, okb, ok))
+							return
+						}
+					}
+					c.Count("failed_removals_weights_compared", 1)
+				}
 				if present {
 					if err != nil {
 						fail("remove/present-failed", "RemoveServer of a present server failed: "+err.Error())
